@@ -101,12 +101,21 @@ func DiskOp(kind, path string) error {
 }
 
 func shortPath(p string) string {
-	if i := strings.Index(p, "/ksim-"); i >= 0 {
-		if j := strings.Index(p[i+1:], "/"); j >= 0 {
-			return p[i+1+j:]
+	// strip every "<anything>/ksim-<pid>-<seq>" prefix (also inside "a -> b")
+	for {
+		i := strings.Index(p, "/ksim-")
+		if i < 0 {
+			return p
 		}
+		start := strings.LastIndexAny(p[:i], " ") + 1
+		end := i + 1
+		if j := strings.IndexAny(p[end:], "/ "); j >= 0 {
+			end += j
+		} else {
+			end = len(p)
+		}
+		p = p[:start] + p[end:]
 	}
-	return p
 }
 
 func errName(err error) string {
